@@ -19,6 +19,14 @@
               left; the next heartbeat would neither graft nor prune; peers outside the mesh are
               within the exhaustive gossip fan-out).
    A batch whose premise did not establish is DISCARDED (reported, never failed).
+
+   Second topic: scenarios may give the nodes static roles on an unrelated topic "U" (taken BEFORE the roles on the
+   topic under test) with traffic in every batch; its observations come under E.u and are judged by the same operators.
+
+   Streams (long-running histories, "stream": true): one message per heartbeat; the gossipsub part of the premise is
+   evaluated PER MESSAGE on the mesh state logged at its publish instant (MsgSettled: everybody outside a mesh is within
+   the exhaustive gossip fan-out, and no GRAFT/PRUNE anywhere during the message's propagation window); messages
+   whose window saw a mesh change are not judged.
    Whether every node's ListPeers equals the model's `known` (= NetProps!ExpectedKnown) is reported as
    drift information only.  One <<"RES", json>> line is printed per check line; the cursor must reach
    the end of the file (POSTCONDITION prints the high-water mark).                                 *)
@@ -30,9 +38,10 @@ Trace == ndJsonDeserialize("trace.ndjson")
 VARIABLES l,            \* cursor
           n,            \* number of nodes of the current scenario
           kind, conn, subs, relays,   \* the tracked configuration (nodes > n are isolated bystanders)
+          usubs, urelays,             \* static roles on the unrelated second topic "U" (0 everywhere in single-topic scenarios)
           par,          \* parameters of the scenario (from the reset line)
-          msgs          \* names of all messages published so far in the scenario
-tvars == <<l, n, kind, conn, subs, relays, par, msgs>>
+          msgs, umsgs   \* names of all messages published so far in the scenario (per topic)
+tvars == <<l, n, kind, conn, subs, relays, usubs, urelays, par, msgs, umsgs>>
 
 All == 1..MaxN
 Range(f) == {f[x] : x \in DOMAIN f}
@@ -41,22 +50,27 @@ More == l <= Len(Trace)
 Adv == l' = l + 1
 EdgeSet(es) == {{e[1], e[2]} : e \in {x \in Range(es) : Len(x) = 2}}
 
-NoPar == [Dlo |-> 1, Dlazy |-> 2, Dhi |-> 3, D |-> 2, RandomSubD |-> 6]
+NoPar == [Dlo |-> 1, Dlazy |-> 2, Dhi |-> 3, D |-> 2, RandomSubD |-> 6, windowMs |-> 0]
 TInit == /\ TLCSet(1, 0) /\ l = 1 /\ n = 0
          /\ kind = [i \in All |-> "flood"] /\ conn = {} /\ subs = [i \in All |-> 0] /\ relays = [i \in All |-> 0]
-         /\ par = NoPar /\ msgs = {}
+         /\ usubs = [i \in All |-> 0] /\ urelays = [i \in All |-> 0]
+         /\ par = NoPar /\ msgs = {} /\ umsgs = {}
 
+SubsOf(r) == CASE r = "sub" -> 1 [] r = "sub2" -> 2 [] OTHER -> 0
 TReset ==
     /\ More /\ E.e = "reset" /\ E.n <= MaxN
     /\ n' = E.n
     /\ kind' = [i \in All |-> IF i <= E.n THEN E.kinds[i] ELSE "flood"]
     /\ conn' = EdgeSet(E.edges)
-    /\ subs' = [i \in All |-> IF i <= E.n THEN (CASE E.roles[i] = "sub" -> 1 [] E.roles[i] = "sub2" -> 2 [] OTHER -> 0) ELSE 0]
+    /\ subs' = [i \in All |-> IF i <= E.n THEN SubsOf(E.roles[i]) ELSE 0]
     /\ relays' = [i \in All |-> IF i <= E.n /\ E.roles[i] = "relay" THEN 1 ELSE 0]
-    /\ par' = [Dlo |-> E.params.Dlo, Dlazy |-> E.params.Dlazy, Dhi |-> E.params.Dhi, D |-> E.params.D, RandomSubD |-> E.params.RandomSubD]
-    /\ msgs' = {} /\ Adv
+    /\ usubs' = [i \in All |-> IF i <= Len(E.uroles) THEN SubsOf(E.uroles[i]) ELSE 0]
+    /\ urelays' = [i \in All |-> IF i <= Len(E.uroles) /\ E.uroles[i] = "relay" THEN 1 ELSE 0]
+    /\ par' = [Dlo |-> E.params.Dlo, Dlazy |-> E.params.Dlazy, Dhi |-> E.params.Dhi, D |-> E.params.D, RandomSubD |-> E.params.RandomSubD,
+               windowMs |-> E.params.windowMs]
+    /\ msgs' = {} /\ umsgs' = {} /\ Adv
 
-\* the configuration step of Net.tla (Subscribe / Cancel / Relay / Unrelay / Connect / Disconnect)
+\* the configuration step of Net.tla (Subscribe / Cancel / Relay / Unrelay / Connect / Disconnect) - topic under test only
 TOp ==
     /\ More /\ E.e = "op"
     /\ IF ~E.ok \/ E.op = "wait" THEN UNCHANGED <<conn, subs, relays>>
@@ -66,55 +80,95 @@ TOp ==
               [] E.op = "unrelay" -> relays' = [relays EXCEPT ![E.a] = @ - 1] /\ UNCHANGED <<conn, subs>>
               [] E.op = "conn"    -> conn' = conn \cup {{E.a, E.b}} /\ UNCHANGED <<subs, relays>>
               [] E.op = "disc"    -> conn' = conn \ {{E.a, E.b}} /\ UNCHANGED <<subs, relays>>
-    /\ Adv /\ UNCHANGED <<n, kind, par, msgs>>
+    /\ Adv /\ UNCHANGED <<n, kind, usubs, urelays, par, msgs, umsgs>>
 
 ---------------------------------------------------------------------------
-(* one publish batch *)
-Live(i) == IF i <= n THEN Range(E.live[i]) ELSE {}
-Dead(i) == IF i <= n THEN Range(E.dead[i]) ELSE {}
-Batch == {p.m : p \in Range(E.pubs)}
-Cnt(i, s, m) == LET ds == {d \in Range(E.deliv) : d.n = i /\ d.s = s /\ d.m = m}
-                IN IF ds = {} THEN 0 ELSE (CHOOSE d \in ds : TRUE).c
+(* one publish batch (or stream) on one topic; X = the observations of that topic (the line itself for the topic under
+   test, E.u for the second topic), S/R = the tracked subscription / relay counts of that topic *)
+LiveOf(X, i) == IF i <= n THEN Range(X.live[i]) ELSE {}
+DeadOf(X, i) == IF i <= n THEN Range(X.dead[i]) ELSE {}
+NamesOf(ps)  == {p.m : p \in Range(ps)}
 
-P_C01_ExactlyOnce == ExactlyOnce(1..n, Live, Dead, Batch, Cnt)
-P_C01_NoDup == NoDup(1..n, LAMBDA i : Live(i) \cup Dead(i), msgs \cup Batch, Cnt)
-Spurious == {d \in Range(E.deliv) : d.m = "?"}        \* payloads nobody published
+\* ExactlyOnce / NoDup of NetProps on the logged bag, for the messages B
+ExactlyOnceOn(X, B) ==
+    LET DM == [m \in B |-> {d \in Range(X.deliv) : d.m = m}]
+        Cnt(i, s, m) == LET ds == {d \in DM[m] : d.n = i /\ d.s = s} IN IF ds = {} THEN 0 ELSE (CHOOSE d \in ds : TRUE).c
+    IN ExactlyOnce(1..n, LAMBDA i : LiveOf(X, i), LAMBDA i : DeadOf(X, i), B, Cnt)
+\* the driver logs one entry per (subscription, message published so far): no entry above 1 <=> NetProps!NoDup
+DupsOf(X) == {d \in Range(X.deliv) : d.m # "?" /\ d.c > 1}
+NoDupOn(X, allmsgs) ==
+    LET Cnt(i, s, m) == LET ds == {d \in DupsOf(X) : d.n = i /\ d.s = s /\ d.m = m} IN IF ds = {} THEN 0 ELSE (CHOOSE d \in ds : TRUE).c
+    IN NoDup(1..n, LAMBDA i : LiveOf(X, i) \cup DeadOf(X, i), allmsgs, Cnt)
+SpuriousOf(X) == {d \in Range(X.deliv) : d.m = "?"}        \* payloads nobody published on this topic
+BadOf(X, B) == {d \in Range(X.deliv) : d.m \in B /\ ((d.s \in LiveOf(X, d.n) /\ d.c # 1) \/ (d.s \in DeadOf(X, d.n) /\ d.c # 0))}
 
 \* the log is consistent with the configuration this specification tracked
-LogOK == /\ EdgeSet(E.edges) = conn
-         /\ \A i \in 1..n : Len(E.live[i]) = subs[i]
-PremCfg == \A p \in Range(E.pubs) : PremiseCfg(1..n, kind, conn, subs, relays, p.n, par.Dlo, par.Dlazy, par.RandomSubD)
+LogOKOf(X, S) == /\ EdgeSet(E.edges) = conn
+                 /\ \A i \in 1..n : Len(X.live[i]) = S[i]
+PremCfgOf(X, S, R) == \A p \in Range(X.pubs) : PremiseCfg(1..n, kind, conn, S, R, p.n, par.Dlo, par.Dlazy, par.RandomSubD)
+\* for streams the gossipsub degree bound is replaced by the exact condition read at every publish instant (MsgSettled)
+PremCfgStream(X, S, R) ==
+    LET O == Overlay(1..n, S, R) IN
+    /\ ConnectedSet(conn, O)
+    /\ \A i \in O : kind[i] = "random" => KindDeg(kind, conn, O, i, "random") <= par.RandomSubD
+    /\ \A p \in Range(X.pubs) : (IF p.n \in O THEN TRUE ELSE Nbrs(conn, p.n) \cap O # {})
 \* observed when the batch was published (real, peers) and again when it was read back (real1, peers1)
 PremEnv == /\ {Range(e) : e \in Range(E.real)} = conn /\ {Range(e) : e \in Range(E.real1)} = conn
            /\ \A i \in 1..n : Range(E.peers[i]) = Nbrs(conn, i) /\ Range(E.peers1[i]) = Nbrs(conn, i)
-PremSettled ==
+\* Net!MeshSettled on the nodes' own state
+SettledAt(mesh, backoff, views, joined) ==
     \A i \in 1..n : kind[i] = "gossip" =>
-        LET me == Range(E.mesh[i])
-            gp == {m \in Range(E.views[i]) : kind[m] = "gossip"}
-        IN /\ E.backoff[i] = <<>>
-           /\ E.joined[i] => /\ Cardinality(me) < par.Dhi
-                             /\ Cardinality(me) >= par.Dlo \/ gp \subseteq me
-                             /\ Cardinality(gp \ me) <= par.Dlazy
-Drift == {i \in 1..n : Range(E.views[i]) # ExpectedKnown(1..n, conn, subs, relays, i)
-                       \/ E.topics[i] # (subs[i] > 0) \/ E.nsubs[i] # subs[i] \/ E.nrelays[i] # relays[i]}
+        LET me == Range(mesh[i])
+            gp == {m \in Range(views[i]) : kind[m] = "gossip"}
+        IN /\ backoff[i] = <<>>
+           /\ joined[i] => /\ Cardinality(me) < par.Dhi
+                           /\ Cardinality(me) >= par.Dlo \/ gp \subseteq me
+                           /\ Cardinality(gp \ me) <= par.Dlazy
+\* ... when the batch was published and again when it was read back, and no GRAFT/PRUNE on the topic in between
+MeshEvents(onT) == {e \in Range(E.meshev) : e[2] = onT}
+PremSettledOf(X, onT) == /\ SettledAt(X.mesh, X.backoff, X.views, X.joined)
+                         /\ SettledAt(X.mesh1, X.backoff1, X.views1, X.joined1)
+                         /\ MeshEvents(onT) = {}
+\* a message of a stream: at its publish instant every joined gossipsub node had at most Dlazy gossipsub topic peers outside
+\* its mesh (the gossip fan-out is exhaustive), and no mesh changed anywhere while it could still be propagating
+MsgSettled(p) ==
+    /\ \A i \in 1..n : (kind[i] = "gossip" /\ p.joined[i]) =>
+           Cardinality({m \in Range(p.views[i]) : kind[m] = "gossip"} \ Range(p.mesh[i])) <= par.Dlazy
+    /\ \A e \in MeshEvents(1) : ~(p.t < e[1] /\ e[1] <= p.t + par.windowMs)
+    /\ p.t + par.windowMs <= E.tq
+Drift(X, S, R) == {i \in 1..n : Range(X.views[i]) # ExpectedKnown(1..n, conn, S, R, i)
+                                \/ X.topics[i] # (S[i] > 0) \/ X.nsubs[i] # S[i] \/ X.nrelays[i] # R[i]}
 
-Bad1 == {d \in Range(E.deliv) : d.m \in Batch /\ ((d.s \in Live(d.n) /\ d.c # 1) \/ (d.s \in Dead(d.n) /\ d.c # 0))}
-Dups == {d \in Range(E.deliv) : d.m # "?" /\ d.c > 1}
+\* verdict record for one topic
+Judge(X, S, R, onT, allmsgs) ==
+    LET B == NamesOf(X.pubs)
+        logok == LogOKOf(X, S)
+        strm == onT = 1 /\ E.stream
+        prem == <<IF strm THEN PremCfgStream(X, S, R) ELSE PremCfgOf(X, S, R), PremEnv, IF strm THEN TRUE ELSE PremSettledOf(X, onT)>>
+        ok3 == logok /\ prem[1] /\ prem[2] /\ prem[3]
+        J == IF ~ok3 THEN {} ELSE IF strm THEN {p.m : p \in {q \in Range(X.pubs) : MsgSettled(q)}} ELSE B
+        once == ExactlyOnceOn(X, J)
+        nodup == NoDupOn(X, allmsgs \cup B)
+        viol == (IF ~once THEN {"P_C01_ExactlyOnce"} ELSE {}) \cup (IF ~nodup THEN {"P_C01_NoDup"} ELSE {})
+                \cup (IF SpuriousOf(X) # {} THEN {"P_C01_ExactlyOnce"} ELSE {})
+    IN [logok |-> logok,
+        verdict |-> IF ~logok THEN "badlog" ELSE IF viol # {} THEN "viol" ELSE IF J # {} THEN "ok" ELSE "discard",
+        premcfg |-> prem[1], premenv |-> prem[2], premsettled |-> prem[3],
+        njudged |-> Cardinality(J), npubs |-> Cardinality(B),
+        viol |-> viol, drift |-> Drift(X, S, R), bad |-> BadOf(X, J), dups |-> DupsOf(X), spurious |-> Cardinality(SpuriousOf(X))]
+
+P_C01_ExactlyOnce == Judge(E, subs, relays, 1, msgs).viol \cap {"P_C01_ExactlyOnce"} = {}
+P_C01_NoDup == Judge(E, subs, relays, 1, msgs).viol \cap {"P_C01_NoDup"} = {}
 
 TCheck ==
     /\ More /\ E.e = "check"
-    /\ LET prem == <<PremCfg, PremEnv, PremSettled>>
-           judged == LogOK /\ prem[1] /\ prem[2] /\ prem[3]
-           viol == (IF judged /\ ~P_C01_ExactlyOnce THEN {"P_C01_ExactlyOnce"} ELSE {})
-                   \cup (IF ~P_C01_NoDup THEN {"P_C01_NoDup"} ELSE {})
-                   \cup (IF Spurious # {} THEN {"P_C01_ExactlyOnce"} ELSE {})
-       IN PrintT(<<"RES", ToJson([scn |-> E.scn, k |-> E.k, logok |-> LogOK,
-                                  verdict |-> IF ~LogOK THEN "badlog" ELSE IF viol # {} THEN "viol" ELSE IF judged THEN "ok" ELSE "discard",
-                                  premcfg |-> prem[1], premenv |-> prem[2], premsettled |-> prem[3],
-                                  viol |-> viol, drift |-> Drift,
-                                  bad |-> IF judged THEN Bad1 ELSE {}, dups |-> Dups, spurious |-> Cardinality(Spurious)])>>)
-    /\ msgs' = msgs \cup Batch
-    /\ Adv /\ UNCHANGED <<n, kind, conn, subs, relays, par>>
+    /\ LET rt == Judge(E, subs, relays, 1, msgs)
+           two == Len(E.u.pubs) > 0
+           ru == IF two THEN Judge(E.u, usubs, urelays, 0, umsgs) ELSE [verdict |-> "none"]
+       IN PrintT(<<"RES", ToJson([scn |-> E.scn, k |-> E.k, stream |-> E.stream, t |-> rt, u |-> ru])>>)
+    /\ msgs' = msgs \cup NamesOf(E.pubs)
+    /\ umsgs' = umsgs \cup NamesOf(E.u.pubs)
+    /\ Adv /\ UNCHANGED <<n, kind, conn, subs, relays, usubs, urelays, par>>
 
 TNext == TReset \/ TOp \/ TCheck
 TraceSpec == TInit /\ [][TNext]_tvars
